@@ -8,6 +8,7 @@ def main():
     ap.add_argument("--property"); ap.add_argument("--clause"); ap.add_argument("--key")
     ap.add_argument("--what"); ap.add_argument("--patch", default=""); ap.add_argument("--status", default="known")
     ap.add_argument("--commit", default="")
+    ap.add_argument("--replay", default="", help="replay file written by a failing run; copied to findings/<ID>/")
     a = ap.parse_args()
     with open(KNOWN_FILE + ".lock", "w") as lk:
         fcntl.flock(lk, fcntl.LOCK_EX)
@@ -19,6 +20,14 @@ def main():
         e = {"property": a.property, "clause": a.clause, "key": a.key, "status": a.status, "what": a.what}
         if a.patch: e["proposed_fix"] = a.patch
         if a.commit: e["commit"] = a.commit
+        if a.replay:
+            import shutil
+            d = os.path.join(os.path.dirname(KNOWN_FILE), "findings", a.property)
+            os.makedirs(d, exist_ok=True)
+            dst = os.path.join(d, os.path.basename(a.replay))
+            if os.path.abspath(a.replay) != os.path.abspath(dst):
+                shutil.copy(a.replay, dst)
+            e["replay"] = os.path.relpath(dst, os.path.dirname(KNOWN_FILE))
         data["findings"] = [x for x in data["findings"] if (x["property"], x["clause"], x["key"]) != (a.property, a.clause, a.key)]
         data["findings"].append(e)
         tmp = KNOWN_FILE + ".tmp"
